@@ -413,3 +413,24 @@ func errResultIdx(fn *ssa.Function) int {
 	}
 	return -1
 }
+
+// findOpSite finds, below handler h, the call site whose callee directly performs an op of the given kind on
+// module/prefix (the keeper accessor call), together with the function that contains it.
+func findOpSite(p *core.Program, h *core.Handler, kind, name string) (*ssa.Function, ssa.CallInstruction) {
+	var unit *ssa.Function
+	var site ssa.CallInstruction
+	for _, fn := range p.Summary(h.Fn).Funcs {
+		allInstrs(fn, func(in ssa.Instruction) {
+			call, ok := in.(ssa.CallInstruction)
+			if !ok {
+				return
+			}
+			if cal, _ := directOpCallee(p, call, kind, name); cal != nil && cal != fn {
+				if unit == nil || fn == h.Fn {
+					unit, site = fn, call
+				}
+			}
+		})
+	}
+	return unit, site
+}
